@@ -8,6 +8,13 @@
  * views after an update (matrix, unitary, copy, invert, fuse, dagger, controlled_by,
    on_qubits) equal those of a freshly built circuit (exact float equality; the per-class
    symbolic obligations are C05's "updated" cases, re-run here for parametrised classes);
+ * derived circuits (harness/c06_derived.py, coq/theories/C06/Derived.v + PropsDerived.v): sequences of 1-4 of
+   invert / + / copy / on_qubits / fuse on circuits mixing trainable, trainable=False, flag-toggled, updated, dedicated- and
+   generic-controlled gates: queue shape and exposed lists equal the model deval (only parametrised gates of the queue, in
+   queue order, flags inherited: the mask of the inverse is the reversed mask, + concatenates, fuse keeps the list), then the
+   set/get model runs on the derived circuit in a random format, exactly the exposed trainable gates move (sources and
+   non-exposed gates keep their values; objects shared iff derived by shallow copy / + / fuse only) and the operator of the
+   derived circuit and of its inverse equal a rebuild from constructors;
  * parameter-shift rule, general theorem (coq/theories/C06/PropsShift.v, proofs in ShiftRule.v): for every
    dimension, state, observable H, lists of fixed matrices before/after the gate, every family
    U(th) = cos(r th) Id - i sin(r th) G, r <> 0 and every scale factor, Re and Im of
@@ -23,7 +30,7 @@
    it equals the analytic derivative 2 Re<psi|H|d psi> * scale_factor for gates in the middle of deeper
    circuits with scale_factor != 1, random initial states and observables.
 """
-STATIC = ["C06/Props", "C06/PropsShift", "Base/TrigDeriv", "Base/TrigMat"]
+STATIC = ["C06/Props", "C06/PropsShift", "Base/TrigDeriv", "Base/TrigMat", "C06/PropsDerived"]
 import itertools
 import random
 from fractions import Fraction
@@ -31,6 +38,7 @@ from fractions import Fraction
 import numpy as np
 
 from lib import qtrace, vcore, symtrace as st
+from harness import c06_derived
 from lib.symtrace import PI
 
 HEADER = "From Coquelicot Require Import Coquelicot.\n" + qtrace.COQ_HEADER + "From QV Require Import Base.TrigDeriv.\nImport ListNotations.\n"
@@ -353,6 +361,76 @@ def independence(run, rng, ncases):
                      f"{'source' if stage == 'update_derived' else 'derived circuit'} moved by {d}" + (f" ({err})" if err else ""),
                      {"spec": spec, "old": old, "new_derived": newd, "new_source": newc, "how": how, "stage": stage, "view": which, "diff": d})
     run.oblige("derived_circuits_have_their_own_parameters", bad == 0, "correspondence")
+
+
+def derived(run, rng, ncases):
+    """bookkeeping model on DERIVED circuits (inverse, copy, +, on_qubits, fused; sequences of 1-4 operations)"""
+    for t in vcore.props_theorems("C06/PropsDerived.v"):
+        run.oblige(t, True, "static-theorem")
+    ok, pa = vcore.static_assumptions("C06/PropsDerived")
+    run.notes["print_assumptions_derived"] = pa
+    exprs, pend, seen = [], [], set()
+    nfound = 0
+
+    def report(case, kind, what, extra=None):
+        nonlocal nfound
+        ch = c06_derived.chain(case["expr"])
+        site = kind.startswith("counters") or kind.startswith("set_raises")    # defects of one call site: keyed by the outermost operation
+        key = f"derived_{kind}:{ch.split('(')[0] if site else ch}"
+        if key in seen or (nfound >= 8 and not site):
+            return
+        seen.add(key)
+        nfound += 1
+        run.refuted.append(key)
+        run.find(key, what, {"derived": case, **(extra or {})})
+    for i in range(ncases):
+        case = c06_derived.make_case(rng, i)
+        r = c06_derived.run_case(case)
+        run.case(["derived", c06_derived.chain(case["expr"]), case["format"],
+                  [[(s["cls"], len(s["controls"]), s["trainable"], s["updated"]) for s in sp] for sp in case["sources"]]])
+        if i % 30 == 0:
+            run.sample({"derived": c06_derived.chain(case["expr"]), "format": case["format"],
+                        "sources": [[s["cls"] + ("" if s["trainable"] in (None, True) else "(fixed)") for s in sp] for sp in case["sources"]]})
+        if "problem" in r:
+            report(case, r["problem"][0], r["problem"][1])
+            continue
+        for kind, what in r["problems"]:
+            report(case, kind, what)
+        idx = {"dshow": len(exprs)}
+        exprs.append(r["dshow"])
+        if "get_expr" in r:
+            idx["set"] = len(exprs)
+            exprs.append(r["set_expr"])
+            idx["get"] = len(exprs)
+            exprs.append(r["get_expr"])
+        pend.append((case, r, idx))
+    vals = run.coq_eval("C06_derived.v", c06_derived.HEADER, exprs, timeout=600)
+    if vals is None:
+        run.oblige("correspondence_derived_circuit_bookkeeping", False, "correspondence")
+        run.find("coq:C06_derived", "model evaluation file for derived circuits does not compile", concrete=False)
+        return
+    for case, r, idx in pend:
+        model = c06_derived.parse(vals[idx["dshow"]])
+        if model is None:
+            report(case, "bookkeeping", "the model refuses an expression the real code executed")
+            continue
+        mq = [(b, [tuple(x) for x in ms]) for b, ms in model[0]]
+        mp = [tuple(x) for x in model[1]]
+        rq, rp = r["shape"]
+        if mq != rq or mp != rp:
+            report(case, "bookkeeping", "queue / parametrized_gates / trainable_gates of the derived circuit differ from the model "
+                   "(only parametrised gates of the queue, in queue order, flags inherited from the source gates)",
+                   {"real_queue": rq, "model_queue": mq, "real_exposed": rp, "model_exposed": mp})
+            continue
+        if "get" in idx:
+            ga, gf, gl, dok, allok = r["got"]
+            m_all = parse_ll(vals[idx["set"]])
+            m_flat, m_list = parse_pair(vals[idx["get"]])
+            if not (m_all == ga and m_flat == gf and m_list == gl and dok and allok):
+                report(case, "params:" + r["fmt"], "set/get_parameters on the derived circuit disagrees with the model",
+                       {"impl_all": ga, "model_all": m_all, "impl_flat": gf, "model_flat": m_flat, "impl_list": gl, "model_list": m_list,
+                        "dict_ok": dok, "include_not_trainable_ok": allok})
+    run.oblige("correspondence_derived_circuit_bookkeeping", nfound == 0, "correspondence")
 
 
 # --------------------------------------------------------------------------- parameter shift
@@ -808,7 +886,9 @@ def probes(run, rng):
                  "[fSim(fixed), RX, fSim, RY]: " + "; ".join(errs), {"errors": errs})
 
 
-RULE = ("bookkeeping: random circuits of 12 gate kinds (1/2/3/matrix parameters, trainable and fixed interleaved) x 4 input formats, "
+RULE = ("derived circuits: 24 fixed + random sequences of 1-4 operations (invert, +, copy, on_qubits, fuse) over sources of 2-7 gates "
+        "(22 parametrised classes, Unitary, fixed gates, generic controls, trainable=False, updated) x 4 formats, exact vs C06/Derived.deval "
+        "and C06/Params; bookkeeping: random circuits of 12 gate kinds (1/2/3/matrix parameters, trainable and fixed interleaved) x 4 input formats, "
         "integer values, compared exactly with the Coq model; views: 8 derived views after an update vs a freshly built circuit; "
         "parameter shift: general theorem (static) + per claimed class the traced matrix is proved to be cos(r th) I - i sin(r th) G; "
         "16 bilinear monomials x {RX,RY,RZ} as Coq derivative obligations; real parameter_shift vs shift formula and vs analytic derivative "
@@ -829,6 +909,7 @@ def main(run):
     bookkeeping(run, rng, 150 if q else 1500)
     views(run, rng, 120 if q else 1500)
     independence(run, random.Random(run.seed + 77), 80 if q else 800)
+    derived(run, random.Random(run.seed + 606), 220 if q else 2200)
     shift_obligations(run, rng)
     shift_general(run, random.Random(run.seed + 5))
     shift_implementation(run, rng, 25 if q else 300)
@@ -843,7 +924,12 @@ def main(run):
                        "parameter_shift accepts only RX, RY, RZ (generator_eigenvalue raises NotImplementedError for every other class, checked "
                        "per run); nothing is claimed for other gates; RX/RY/RZ objects made with controlled_by(two or more controls) keep the "
                        "class but are controlled operators (cembed, not embed): the rule is refuted for them "
-                       "(controlled_rotation_shift_rule_refuted; finding parameter_shift:multi_controlled:*)",
+                       "(controlled_rotation_shift_rule_refuted); parameter_shift rejects them since /repo 227cda208, re-checked per run "
+                       "(a wrong derivative is reported as parameter_shift:multi_controlled:*)",
+                       "derived circuits: the `trainable` flag toggled on a gate object after construction is followed through add / copy / + / "
+                       "invert / fuse only; on_qubits (and light_cone, serialisation) re-create gates from constructor arguments and are "
+                       "exercised with constructor-given flags; exposure of FusedGate members after re-adding a fused queue (copy, +, invert "
+                       "of a fused circuit expose only un-fused gates) is modelled as the code does it, not judged",
                        "density-matrix circuits / noise channels: the theorem is stated for state vectors (pure states); mixed states follow by "
                        "linearity of the derivative in the ensemble, which is not formalised"]
     return run.finish(rule=RULE)
@@ -852,6 +938,21 @@ def main(run):
 def replay(run, data):
     rng = random.Random(data.get("seed", 0))
     rp = data["replay"]
+    if "derived" in rp:
+        r = c06_derived.run_case(rp["derived"])
+        probs = [r["problem"]] if "problem" in r else list(r["problems"])
+        if "shape" in r:
+            v = run.coq_eval("C06_derived_replay.v", c06_derived.HEADER, [r["dshow"]])
+            model = c06_derived.parse(v[0]) if v else None
+            if model is not None:
+                mq, mp = [(b, [tuple(x) for x in ms]) for b, ms in model[0]], [tuple(x) for x in model[1]]
+                if (mq, mp) != tuple(r["shape"]):
+                    probs.append(("bookkeeping", f"real exposed list {r['shape'][1]} model {mp}"))
+        for k, w in probs:
+            print("replay:", k, w)
+        if probs:
+            run.find(data["key"], probs[0][1], rp)
+        return run.finish(rule="replay of one recorded derived-circuit case")
     if "view" in rp:
         print("replay: re-run `bin/check C06` with VERIF_SEED=%s to regenerate this case" % data.get("seed"))
     return main(run)
